@@ -55,7 +55,7 @@ VIEW_CALLS = [
     "H:nodes.local_edit_simpliciality.asdict", "H:nodes.local_face_edit_simpliciality.asdict",
     "str", "repr", "len", "iter", "getattr_degree", "lshift", "dual", "multi",
     "deg_weight", "deg_order", "size_degree", "attrs_missing", "filterby", "filterby_attr", "neighbors",
-    "lookup", "getitem",
+    "lookup", "getitem", "copy", "copy",
 ]
 
 
@@ -74,6 +74,12 @@ def configure(cfg, r, tier):
     cfg["ops"]["H"]["dup_edge"] = 4.0
     cfg["ops"]["H"]["merge_duplicate_edges"] = 3.0
     cfg["p_io_observer"] = r.choice([0.1, 0.25])
+    if "SC" in cfg["initial"] and r.random() < 0.4:
+        # the mutators a complex inherits from Hypergraph are part of its history too (they leave
+        # mutable member sets behind); the closure clauses of C03 do not apply to such a complex
+        cfg["sc_invariants"] = False
+        cfg["sc_foreign_ops"] = True
+        cfg["ops"]["SC"]["random_edge_shuffle"] = 4.0
 
 
 _CACHE = {}
@@ -316,6 +322,8 @@ def view_call(sim, r, spec, obj, kind):
                         [obj.edges.neighbors(e, s=r.choice([1, 2])) for e in list(obj.edges)[:3]] if kind != "DH" else None)
     if spec == "lookup":
         return lambda: (list(obj.edges.lookup(list(obj.nodes)[:2])) if kind != "DH" else None)
+    if spec == "copy":
+        return lambda: obj.copy()
     if spec == "getitem":
         return lambda: ([obj.nodes[n] for n in list(obj.nodes)[:2]], [obj.edges[e] for e in list(obj.edges)[:2]],
                         obj["name"] if "name" in obj._net_attr else None)
@@ -433,6 +441,22 @@ def do_observe(sim, rec):
     return rec["actor"]
 
 
+def _try(f, *a):
+    try:
+        f(*a)
+    except Exception:
+        pass
+
+
+def _drop_member(net, e):
+    mm = list(net.edges.members(e)) if not hasattr(net.edges, "dimembers") else list(net.edges.tail(e))
+    if len(mm) >= 2:
+        if hasattr(net.edges, "dimembers"):
+            net.remove_node_from_edge(e, mm[0], "out", remove_empty=False)
+        else:
+            net.remove_node_from_edge(e, mm[0], remove_empty=False)
+
+
 def poison_result(out, obj, depth=0):
     """modify a returned value in place where that is possible; returns the number of objects
     touched.  Networks: a network attribute, a node, an edge and a membership; containers:
@@ -444,8 +468,9 @@ def poison_result(out, obj, depth=0):
         try:
             if hasattr(out, "_net_attr") and hasattr(out, "add_node"):
                 for f in (lambda: out.__setitem__(P, 1), lambda: out._net_attr.clear(), lambda: out.add_node(P),
-                          lambda: out.add_node_to_edge(next(iter(out.edges)), P),
-                          lambda: out.add_node_to_edge(next(iter(out.edges)), P, "in"),
+                          lambda: [_try(out.add_node_to_edge, e, P) for e in list(out.edges)[:60]],
+                          lambda: [_try(out.add_node_to_edge, e, P, "in") for e in list(out.edges)[:60]],
+                          lambda: [_try(_drop_member, out, e) for e in list(out.edges)[:60]],
                           lambda: out.set_node_attributes({x: {P: 1} for x in out.nodes}),
                           lambda: out.set_edge_attributes({x: {P: 1} for x in out.edges}),
                           lambda: out.remove_node(next(iter(out.nodes))),
